@@ -171,7 +171,9 @@ def stratified(hs, rng, limit):
         if not progressed:
             break
         rnd += 1
-    return out, len(classes), len(single)
+    chosen = {id(h) for h in out}
+    covered = sum(1 for k in single if any(id(h) in chosen for h in single[k]))
+    return out, len(classes), (len(single), covered)
 
 
 def _freeze(v):
